@@ -188,8 +188,10 @@ def is_edge_adjacent(v: float, all_edges: Sequence[float]) -> bool:
 
 def shaped(rng: random.Random, values: List[float]):
     """Return the values in one of the container/shape classes h1 accepts (same flattened order)."""
-    kind = rng.choice(["list", "array", "tuple", "array2d", "array2d_F", "array2d_T", "f32ok", "iter", "list_none", "object"])
+    kind = rng.choice(["list", "array", "tuple", "array2d", "array2d_F", "array2d_T", "f32ok", "iter", "list_none", "object", "named"])
     arr = np.asarray(values, dtype=float)
+    if kind == "named":  # the (name, values) pair form (e.g. an item of a pandas groupby)
+        return ("label", arr.copy()), kind
     if kind == "list_none":  # missing values written as None (plain python table column)
         return [None if (isinstance(v, float) and math.isnan(v)) else v for v in values], kind
     if kind == "object":  # object array holding floats (and NaN)
